@@ -122,6 +122,10 @@ def storage_derived(t):
             return x
         if h == "rawres" and x[1] not in ("require_dataset", "create_dataset", "create_group", "require_group"):
             return x
+        if h == "elem" and not any(y and y[0] == "param" for y in subterms(x[1])):
+            # the elements of something reached from the handle itself: which children exist (and in which order) is a
+            # fact about the file
+            return x
     return None
 
 
